@@ -215,12 +215,11 @@ Definition mclose (tol : float) (r c : nat) (M N : fmat) : bool :=
 Definition check_pcase (p : pcase) : nat :=
   let Ar := if p_f32 p then ArFloat32 else ArFloat in
   let n := p_n p in let k := p_k p in
-  let Tj := add_jitter Ar (p_embed p) (p_jit p) k (p_T p) in
-  (* Diagonalization: the transcribed (jitter on every entry, known finding C09-diagonalization-jitter-all-entries)
-     or the specified (diagonal) jitter is accepted, so that a repaired tree does not alarm; the harness's direct
-     predicate distinguishes them *)
-  let Tspec := add_jitter Ar false (p_jit p) k (p_T p) in
-  if ~~ (mclose (p_rtol p) k k Tj (p_eigh_in p) || (p_embed p && mclose (p_rtol p) k k Tspec (p_eigh_in p))) then 1
+  (* Diagonalization: which form of the jitter the tree under test uses (on every entry = known finding
+     C09-diagonalization-jitter-all-entries, or on the diagonal = repaired) is probed on every run and written to
+     gen/Consts.v (diag_jitter_all_entries_lit); the comparison is strict for that form *)
+  let Tj := add_jitter Ar (p_embed p && diag_jitter_all_entries_lit) (p_jit p) k (p_T p) in
+  if ~~ mclose (p_rtol p) k k Tj (p_eigh_in p) then 1
   else
     let: (root, inv) := root_post Ar n k (p_Q p) (p_evals p) (p_evecs p) in
     let: (dv, dq) := diag_post Ar n k (p_Q p) (p_evals p) (p_evecs p) in
@@ -237,13 +236,54 @@ Fixpoint bad_pcases (cs : seq pcase) (i : nat) : seq nat :=
               if k == 0 then bad_pcases r i.+1 else (i * 16 + k) :: bad_pcases r i.+1
   end.
 
-(* best-probe selection: the summed residuals (recomputed by the harness with the formula of lines 202-217) and
-   the index of the probe whose inverse root _postprocess_lanczos_root_inv_decomp returned *)
-Record scase := MkSCase { s_res : fvec; s_idx : nat }.
-Definition check_scase (c : scase) : nat := if argmin ArFloat (s_res c) == s_idx c then 0 else 1.
+(* best-probe selection (_postprocess_lanczos_root_inv_decomp): the model recomputes the summed residual of every probe
+   from the inverse roots the implementation produced, the test vectors and the dense matrices; they must agree with
+   the harness's independent float64 evaluation, and (when the two smallest residuals are clearly separated) the
+   model's argmin must be the probe whose inverse root was returned *)
+Record scase := MkSCase {
+  s_n : nat; s_k : nat; s_t : nat;
+  s_As : seq fmat;                (* one n x n matrix per batch member *)
+  s_Rs : seq (seq fmat);          (* inv_roots[p][b] : n x k *)
+  s_Vs : seq fmat;                (* test_vectors[b] : n x t *)
+  s_res : fvec;                   (* residuals recomputed by the harness (plain torch) *)
+  s_idx : nat;                    (* index of the returned inverse root *)
+  s_cmp_idx : bool;
+  s_rtol : float
+}.
+(* reason codes: 1 residual values; 2 chosen index *)
+Definition check_scase (c : scase) : nat :=
+  let res := post_residuals ArFloat (s_n c) (s_k c) (s_t c) (s_As c) (s_Rs c) (s_Vs c) in
+  if ~~ bclose (s_rtol c) zero 1 (size (s_res c)) [:: res] [:: s_res c] || (size res != size (s_res c)) then 1
+  else if s_cmp_idx c && ((postprocess ArFloat (s_n c) (s_k c) (s_t c) (s_As c) (s_Rs c) (s_Vs c)).1 != s_idx c) then 2
+  else 0.
 Fixpoint bad_scases (cs : seq scase) (i : nat) : seq nat :=
   match cs with
   | [::] => [::]
   | c :: r => let k := check_scase c in
               if k == 0 then bad_scases r i.+1 else (i * 16 + k) :: bad_scases r i.+1
+  end.
+
+(* shapes handed back by RootDecomposition.forward (api 0: root / inverse root), Diagonalization.forward (api 1:
+   eigenvalues, q_mat) and _postprocess_lanczos_root_inv_decomp (api 2).  In the cells of known finding
+   C09-leading-singleton-batch (a leading batch dimension of size 1 is squeezed away) a tree that returns the
+   specified shape is accepted as well: the harness's direct predicate tells the two apart. *)
+Record hcase := MkHCase {
+  h_api : nat; h_nprobe : nat; h_batch : seq nat; h_n : nat; h_m : nat;
+  h_obs : seq nat;                (* shape of the root / inverse root / q_mat *)
+  h_obs_evals : seq nat           (* api 1: shape of the eigenvalues *)
+}.
+Definition check_hcase (c : hcase) : nat :=
+  let b := h_batch c in let n := h_n c in let m := h_m c in
+  match h_api c with
+  | 0 => if (root_forward_shape (lanczos_lead (h_nprobe c) b) n m == h_obs c)
+            || (h_obs c == lanczos_lead (h_nprobe c) b ++ [:: n; m]) then 0 else 1
+  | 1 => if (diag_forward_shape b n m == (h_obs_evals c, h_obs c))
+            || ((h_obs_evals c, h_obs c) == (b ++ [:: m], b ++ [:: n; m])) then 0 else 1
+  | _ => if (postprocess_shape b n m == h_obs c) || (h_obs c == b ++ [:: n; m]) then 0 else 1
+  end.
+Fixpoint bad_hcases (cs : seq hcase) (i : nat) : seq nat :=
+  match cs with
+  | [::] => [::]
+  | c :: r => let k := check_hcase c in
+              if k == 0 then bad_hcases r i.+1 else (i * 16 + k) :: bad_hcases r i.+1
   end.
